@@ -556,6 +556,7 @@ fn op_registry(ctx: &mut Ctx, op: &Value, ev: &mut Map<String, Value>) {
         "r_limit" => core::set_limit(id, get_u(op, "limit") as usize),
         "r_markers" => core::highlight_with(id, (&string_of(&get_cps(op, "l")), &string_of(&get_cps(op, "r")))),
         "r_search" => core::run_search(id, &string_of(&get_cps(op, "q"))),
+        "r_clear" => core::using_store(id, |s| s.clear()),
         _ => {}
     });
     match res {
@@ -726,7 +727,7 @@ fn main() {
             }
             "new" | "drop" | "add" | "clear" | "limit" | "markers" | "search" | "prepare" => op_store(&mut ctx, &op, &mut ev),
             "tok" => op_tok(&mut ctx, &op, &mut ev),
-            "r_create" | "r_destroy" | "r_add" | "r_limit" | "r_markers" | "r_search" => op_registry(&mut ctx, &op, &mut ev),
+            "r_create" | "r_destroy" | "r_add" | "r_limit" | "r_markers" | "r_search" | "r_clear" => op_registry(&mut ctx, &op, &mut ev),
             "dl" | "jac" | "lsort" | "dlnew" | "jacnew" | "wm" | "tm" | "gate" => comp::op_component(&mut ctx, &op, &mut ev),
             _ => {
                 ev.insert("skipped".into(), json!("unknown op"));
